@@ -15,7 +15,7 @@ meta = {'breaks': [pid],
             'repository_tests_with_change': t[0], 'demo_exit_codes': t[1],
             'how': 'in the scratch worktree: git apply seed.patch; /venv/bin/python -m pytest -q '
                    '-p no:cacheprovider --no-cov; PYTHONPATH=<worktree> python demo.py (exit 1); '
-                   'git stash; demo.py (exit 0)'},
+                   'git apply -R seed.patch; demo.py (exit 0)'},
         'detected_by': None}
 json.dump(meta, open(os.path.join(p, 'meta.json'), 'w'), indent=1)
 print('meta written for', d)
